@@ -29,7 +29,7 @@ def cases(draw, tier):
     return dict(nl=nl, lanes=lanes, waves=waves, pre=pre, dpool=draw(W.DELAY_POOL), caps=draw(W.CAPS), f64=draw(st.booleans()),
                 strip_forks=draw(st.booleans()), pol_indep=draw(st.booleans()), c_reuse=draw(st.sampled_from([False, False, True])),
                 shift=draw(st.integers(-4096, 8192)), scale=draw(st.integers(-6, 6)), cuda=draw(st.sampled_from([False, False, False, True])),
-                nds=draw(st.sampled_from([1, 1, 2, 3])), gsel=draw(st.integers(0, 2)))
+                nds=draw(st.sampled_from([1, 1, 2, 3])), gsel=draw(st.integers(0, 2)), mix=draw(st.sampled_from([0, 0, 1, 2, 3, 5, 6])))
 
 
 def run(case, b, scale=1.0, shift=0.0):
@@ -42,15 +42,22 @@ def run(case, b, scale=1.0, shift=0.0):
     klass = WaveSimCuda if case.get('cuda') else WaveSim
     sim = klass(b.c, delays, sims=case['lanes'], c_caps=W.caps_for(nlines, case['caps']), c_reuse=bool(case.get('c_reuse')),
                 strip_forks=case['strip_forks'])
+    lane_ds = [g] * case['lanes']
     if nds > 1:
         sim.simctl_int[1] = 0           # the seed argument of c_prop names the delay dataset for all simulations
+        if case.get('mix'):             # ... or lane by lane: method 1 takes the dataset from simctl_int[0] of that lane
+            for lane in range(case['lanes']):
+                if (case['mix'] >> lane) & 1:
+                    sim.simctl_int[1, lane] = 1
+                    sim.simctl_int[0, lane] = (case['mix'] + lane) % nds
+                    lane_ds[lane] = (case['mix'] + lane) % nds
     if case.get('pre'):         # an earlier, unrelated assignment on the same simulator object must leave no trace
         W.apply_inputs(sim, b, case['nl'], case['pre'])
         sim.c_prop(seed=g); sim.c_to_s()
     W.apply_inputs(sim, b, case['nl'], case['waves'], scale=scale, shift=shift)
     sim.c_prop(seed=g)
     sim.c_to_s()
-    return sim, delays[g:g + 1]         # the window is that of the selected dataset
+    return sim, [delays[d:d + 1] for d in lane_ds]         # per lane: the window is that of the dataset selected for it
 
 
 def sta(b, nl, delays, waves, lane, strip_forks):
@@ -98,7 +105,7 @@ def prop(case):
     multi_switch = False
     # (a) window, (d) monotonicity
     for lane in range(lanes):
-        wins = sta(b, nl, delays, case['waves'], lane, case['strip_forks'])
+        wins = sta(b, nl, delays[lane], case['waves'], lane, case['strip_forks'])
         for l in b.c.lines:
             w = waves[l.index][lane]
             if not w['ok']:
@@ -124,7 +131,7 @@ def prop(case):
     rows = [b.s_pos(n) for n in b.po] + [b.s_pos(n) for k, n in enumerate(b.st) if nl['st'][k]['d'] is not None]
     rlines = [n.ins[0] for n in b.po] + [n.ins[0] for k, n in enumerate(b.st) if nl['st'][k]['d'] is not None]
     for lane in range(lanes):
-        wins = sta(b, nl, delays, case['waves'], lane, case['strip_forks'])
+        wins = sta(b, nl, delays[lane], case['waves'], lane, case['strip_forks'])
         for row, line in zip(rows, rlines):
             eat, lst = float(sim.s[4, row, lane]), float(sim.s[5, row, lane])
             win = wins[line.index]
